@@ -391,9 +391,12 @@ def image(rng):
 # ------------------------------------------------------------------------------------------------
 # update histories
 # ------------------------------------------------------------------------------------------------
-def small_file(rng, paddings):
-    """metadata section with the given padding sizes + fake frame bytes"""
+def small_file(rng, paddings, big=0):
+    """metadata section with the given padding sizes + fake frame bytes; `big` = size of an extra
+    APPLICATION block (metadata beyond one 8 KiB read buffer)"""
     blocks = [(0, ser_streaminfo(rng))]
+    if big:
+        blocks.append((2, be(4, 9) + bytes(rng.randrange(256) for _ in range(big))))
     if rng.random() < 0.5:
         blocks.append((4, ser_block(rng, 4)))
     for i, p in enumerate(paddings):
